@@ -407,6 +407,60 @@ fn shrink(src: &str, pred: &mut dyn FnMut(&str) -> bool, mut budget: usize) -> S
     cur.into_iter().collect()
 }
 
+/// The four entry points of `quiver_compiler::parser::verif` against the model's `ptype` / `pbase`
+/// / `pfio` / `pinline`: the AST and the number of bytes consumed, or the byte offset and nom code
+/// of the error (and that it is an `Error`, not a `Failure`: the type grammar has no `cut`).
+fn check_hook(ev: &mut Ev, model: &mut Model, stream: &str, text: &str) {
+    use quiver_compiler::parser::verif;
+    let entries: [(&str, &str, fn(&str) -> verif::TypeParse); 4] = [
+        ("type_definition", "ptype", verif::type_definition),
+        ("base_type", "pbase", verif::base_type),
+        ("function_input_type", "pfio", verif::function_input_type),
+        ("inline_type_expression", "pinline", verif::inline_type_expression),
+    ];
+    for (name, req, f) in entries {
+        let real = match catch(|| f(text)) {
+            Err(p) => {
+                ev.violation(&format!("types hook-panic entry={name}"), &format!("{name} panics on {text:?}: {p}"), json!({"source": text, "entry": name, "stream": stream}), true);
+                continue;
+            }
+            Ok(Ok((t, used))) => format!("ok {} {used}", sx_ty(&t)),
+            Ok(Err((off, code, failure))) => format!("err {off} {code}{}", if failure { " FAILURE" } else { "" }),
+        };
+        let want = model.ask(&format!("{req} {}", hx(text)));
+        ev.hit(&format!("types:hook:{name}:{}", real.split(' ').next().unwrap_or("")));
+        if let Some(code) = real.strip_prefix("err ").and_then(|r| r.split(' ').nth(1)) {
+            ev.hit(&format!("types:hook-error-code:{code}"));
+        }
+        if real != want {
+            let mut pred = |s: &str| {
+                if paren_depth(s) > MAX_PAREN_DEPTH + 2 {
+                    return false;
+                }
+                let r = match catch(|| f(s)) {
+                    Ok(Ok((t, used))) => format!("ok {} {used}", sx_ty(&t)),
+                    Ok(Err((off, code, failure))) => format!("err {off} {code}{}", if failure { " FAILURE" } else { "" }),
+                    Err(_) => return false,
+                };
+                r != model.ask(&format!("{req} {}", hx(s)))
+            };
+            let small = shrink(text, &mut pred, 500);
+            let r2 = match catch(|| f(&small)) {
+                Ok(Ok((t, used))) => format!("ok {} {used}", sx_ty(&t)),
+                Ok(Err((off, code, failure))) => format!("err {off} {code}{}", if failure { " FAILURE" } else { "" }),
+                Err(p) => format!("panic {p}"),
+            };
+            let w2 = model.ask(&format!("{req} {}", hx(&small)));
+            ev.violation(
+                &format!("types kind=hook-differs-from-model entry={name}"),
+                &format!("{name} on {small:?} (stream {stream}): implementation `{r2}`, model `{w2}`"),
+                json!({"broken": format!("correspondence model<->impl on parser::verif::{name} (M-Parse {req})"), "source": small, "original_source": text, "impl": r2, "model": w2, "stream": stream}),
+                false,
+            );
+        }
+    }
+}
+
 /// One text through the real parser and the model; reports on disagreement. Returns the real result.
 fn check_text(ev: &mut Ev, model: &mut Model, stream: &str, src: &str) -> Impl {
     let imp = run_impl(src);
@@ -693,6 +747,12 @@ fn receive_nest_witness(ev: &mut Ev) {
     }
 }
 
+/// the text behind the alias's ` = ` (the type as the type parsers see it)
+fn type_part(src: &str) -> Option<&str> {
+    let i = src.find('=')?;
+    Some(src[i + 1..].trim_start_matches([' ', '\t', '\n', '\r']))
+}
+
 // ---- entry point ------------------------------------------------------------------------------------
 
 pub fn part_types(ev: &mut Ev, model: &mut Model, opts: &Opts) {
@@ -705,6 +765,9 @@ pub fn part_types(ev: &mut Ev, model: &mut Model, opts: &Opts) {
         ev.case(src, true);
         ev.hit("types:stream:fixed");
         let imp = check_text(ev, model, "fixed", src);
+        if let Some(t) = type_part(src) {
+            check_hook(ev, model, "fixed", t);
+        }
         if let Impl::Ok { first_alias: Some(_), .. } = imp {
             texts.push(src.to_string());
             // and the round trip of what was read
@@ -778,6 +841,9 @@ pub fn part_types(ev: &mut Ev, model: &mut Model, opts: &Opts) {
         if let Some(text) = check_alias(ev, model, stream, &a) {
             ev.sample_sparse(i, 5_000, || json!({"stream": stream, "alias": sx_alias(&a), "text": text}));
             if paren_depth(&text) <= MAX_PAREN_DEPTH {
+                if let Some(t) = type_part(&text) {
+                    check_hook(ev, model, stream, t.trim_end_matches('\n'));
+                }
                 texts.push(text);
             }
         }
@@ -869,6 +935,9 @@ pub fn part_types(ev: &mut Ev, model: &mut Model, opts: &Opts) {
             ev.hit("types:stream:mutated");
             ev.hit(&format!("types:mutation:{kind}"));
             let imp = check_text(ev, model, &format!("mutated-{kind}"), &src);
+            if let Some(t) = type_part(&src) {
+                check_hook(ev, model, &format!("mutated-{kind}"), t);
+            }
             // whatever the real parser accepts as an alias is WFType and round-trips
             if let Impl::Ok { first_alias: Some(_), .. } = &imp {
                 if let Ok(Ok(prog)) = catch(|| quiver_compiler::parse(&src)) {
